@@ -4,6 +4,7 @@ import EdpVerif.Generated.MiscState
 import EdpVerif.Lemmas.ProcsLate
 import EdpVerif.Lemmas.Behaviours
 import EdpVerif.Lemmas.ProcsK
+import EdpVerif.Lemmas.RegistryLocks
 /-
 C18 — local processes: ordered exactly-once delivery, exit notices, name lifecycle.
 Property theorems only; the model is EdpVerif/Impl/Procs.lean (small-step semantics of the registry, the mailboxes, the
@@ -1019,5 +1020,264 @@ theorem C18_registry_lock_order_is_the_sources :
     Gen.REGISTRY_REMOVE_EVENTS = ["temp:by_pid.write", "drop", "temp:by_name.write", "sweep-names"] ∧
     Gen.REGISTRY_UNREGISTER_EVENTS = ["temp:by_name.write", "drop"] ∧
     Gen.REGISTRY_WHEREIS_EVENTS = ["temp:by_name.read", "look-up"] := by decide
+
+end Edp.Props.C18
+
+/-! ## the registry at lock granularity: the order of the locks is what makes the atomic view right
+
+Model: Impl/RegistryLocks.lean (two tables, the holder of the names lock, a program counter per task; the programs of
+`register` / `remove` / `unregister` / `whereis` are INTERPRETED from the event lists regenerated from registry.rs);
+invariants: Lemmas/RegistryLocks.lean. Any number of tasks, any schedule (a list of task ids; the step of a blocked or
+finished task is a no-op). -/
+namespace Edp.Props.C18
+open Edp Edp.Impl.Procs Edp.Impl.RegistryLocks
+
+/-- the event lists of the source, read as programs, ARE the programs the invariants below are proved for; the seeded order
+(liveness check in front of the names lock) reads as the program of the negative witness -/
+theorem C18_registry_programs_are_the_sources :
+    progsOf Gen.REGISTRY_REGISTER_EVENTS Gen.REGISTRY_REMOVE_EVENTS Gen.REGISTRY_UNREGISTER_EVENTS Gen.REGISTRY_WHEREIS_EVENTS
+      = some srcProgs ∧
+    srcProgs.register = [.acqNames, .checkLive, .claim] ∧ srcProgs.remove = [.dropPid, .sweep] ∧
+    progsOf ["temp:by_pid.read", "check-live", "hold:by_name.write", "claim-name"] Gen.REGISTRY_REMOVE_EVENTS
+      Gen.REGISTRY_UNREGISTER_EVENTS Gen.REGISTRY_WHEREIS_EVENTS = some checkFirstProgs ∧
+    parse ["claim-name", "hold:by_name.write"] = none := by decide
+
+private theorem progs_of_sources {pr : Progs}
+    (hpr : progsOf Gen.REGISTRY_REGISTER_EVENTS Gen.REGISTRY_REMOVE_EVENTS Gen.REGISTRY_UNREGISTER_EVENTS
+      Gen.REGISTRY_WHEREIS_EVENTS = some pr) : pr = srcProgs := by
+  rw [C18_registry_programs_are_the_sources.1] at hpr
+  exact (Option.some.inj hpr).symm
+
+/-- **the invariant of the two tables under every schedule**, for the programs the source has: every name in `by_name` is
+owned by a pid that is in `by_pid` OR whose `remove` has dropped it and has not swept yet; the names are a map (no name has
+two owners); only a task between its acquisition and its claim holds the names. -/
+theorem C18_registry_invariant_at_lock_granularity (pr : Progs)
+    (hpr : progsOf Gen.REGISTRY_REGISTER_EVENTS Gen.REGISTRY_REMOVE_EVENTS Gen.REGISTRY_UNREGISTER_EVENTS
+      Gen.REGISTRY_WHEREIS_EVENTS = some pr)
+    (r0 : Reg) (h0 : RegOK r0) (calls : List Call) (sched : List Tid) :
+    let st := run (init pr r0 calls) sched
+    (∀ n p, (n, p) ∈ st.reg.byName → p ∈ st.reg.byPid ∨ Pend st.tasks p) ∧
+    (∀ n p, st.reg.whereis n = some p → p ∈ st.reg.byPid ∨ Pend st.tasks p) ∧
+    (st.reg.byName.map (·.1)).Nodup ∧
+    (∀ t, st.holder = some t → (st.tasks t).code = [.checkLive, .claim] ∨ (st.tasks t).code = [.claim]) := by
+  intro st
+  have hpr' := progs_of_sources hpr
+  subst hpr'
+  have hi : LockInv st := lockInv_run (lockInv_init h0 calls) sched
+  exact ⟨hi.owned, fun n p h => hi.owned n p (nameFind_some_mem h), hi.uniq, fun t h => (hi.held t).mp h⟩
+
+example :
+    let st := run (init srcProgs { byPid := [1] } [.register 7 1, .remove 1]) [0, 0, 1, 0]
+    st.reg = { byPid := [], byName := [(7, 1)] } ∧ (st.tasks 1).code = [.sweep] ∧ (st.tasks 1).pid = 1 ∧ (st.tasks 0).code = [] ∧
+    RegOK { byPid := [1] } := by
+  refine ⟨by decide, by decide, by decide, by decide, ?_, by decide⟩
+  intro n p h; cases h
+
+/-- **at quiescence (every task has returned) every registered name's owner is in the registry**: names never outlive
+their processes, at lock granularity, for the lock order the source has, whatever the tasks and the schedule. -/
+theorem C18_names_never_outlive_processes_at_lock_granularity (pr : Progs)
+    (hpr : progsOf Gen.REGISTRY_REGISTER_EVENTS Gen.REGISTRY_REMOVE_EVENTS Gen.REGISTRY_UNREGISTER_EVENTS
+      Gen.REGISTRY_WHEREIS_EVENTS = some pr)
+    (r0 : Reg) (h0 : RegOK r0) (calls : List Call) (sched : List Tid) :
+    let st := run (init pr r0 calls) sched
+    Quiescent st → st.holder = none ∧ ∀ n p, st.reg.whereis n = some p → p ∈ st.reg.byPid := by
+  intro st hq
+  have hpr' := progs_of_sources hpr
+  subst hpr'
+  have hi : LockInv st := lockInv_run (lockInv_init h0 calls) sched
+  refine ⟨quiescent_holder hi hq, ?_⟩
+  intro n p h
+  rcases hi.owned n p (nameFind_some_mem h) with h1 | ⟨t, h1, _⟩
+  · exact h1
+  · rw [hq t] at h1; cases h1
+
+/-- a spawn and a registration that have both returned: the name's owner is in the registry -/
+example :
+    let st := run (init srcProgs {} [.insert 1, .register 7 1]) [1, 0, 1, 1]
+    Quiescent st ∧ st.reg.whereis 7 = some 1 ∧ 1 ∈ st.reg.byPid ∧ st.holder = none := by
+  refine ⟨?_, by decide, by decide, by decide⟩
+  intro t
+  match t with
+  | 0 => decide
+  | 1 => decide
+  | n + 2 => rfl
+
+/-- and a name whose owner was removed can be registered again: at quiescence a registration for a process of the registry
+is refused as taken only when the name belongs to a process that IS in the registry -/
+theorem C18_name_of_a_removed_process_can_be_registered_again (pr : Progs)
+    (hpr : progsOf Gen.REGISTRY_REGISTER_EVENTS Gen.REGISTRY_REMOVE_EVENTS Gen.REGISTRY_UNREGISTER_EVENTS
+      Gen.REGISTRY_WHEREIS_EVENTS = some pr)
+    (r0 : Reg) (h0 : RegOK r0) (calls : List Call) (sched : List Tid) (n : Name) (q : Pid) :
+    let st := run (init pr r0 calls) sched
+    Quiescent st → q ∈ st.reg.byPid →
+      (st.reg.register n q).2 = .ok ∨ ∃ p, st.reg.whereis n = some p ∧ p ∈ st.reg.byPid := by
+  intro st hq hm
+  cases hf : nameFind n st.reg.byName with
+  | none => left; simp [Reg.register, hm, hf]
+  | some p =>
+    right
+    exact ⟨p, hf, (C18_names_never_outlive_processes_at_lock_granularity pr hpr r0 h0 calls sched hq).2 n p hf⟩
+
+/-- a process registers a name, terminates while another registration for it is in flight, and the name is free for the next
+process: spawn 1, register 7 -> 1 racing remove 1 (the remove drops 1 between the check and the claim and has to wait for the
+names with its sweep), then spawn 2 and register 7 -> 2: Ok -/
+example :
+    let st := run (init srcProgs {} [.insert 1, .register 7 1, .remove 1, .insert 2, .register 7 2])
+      [0, 1, 1, 2, 2, 1, 2, 3, 4, 4, 4]
+    Quiescent st ∧ st.reg = { byPid := [2], byName := [(7, 2)] } ∧ (st.tasks 1).res = some .ok ∧ (st.tasks 4).res = some .ok ∧
+    RegOK {} := by
+  refine ⟨?_, by decide, by decide, by decide, ?_, by decide⟩
+  · intro t
+    match t with
+    | 0 => decide
+    | 1 => decide
+    | 2 => decide
+    | 3 => decide
+    | 4 => decide
+    | n + 5 => rfl
+  · intro n p h; cases h
+
+/-- **the registry is linearizable at lock granularity**: every finished history of the lock-granularity model has the same
+final tables and the same answers as a sequential order of the atomic operations of `Procs.Reg` — the order `lin`, in which
+`register` stands where it read `by_pid` under the names lock (its claim or refusal is decided there: nothing can touch the
+names until it releases them), `remove` stands with its drop (for `by_pid`) and with its sweep (for `by_name`), as the exit
+path of Impl/Procs.lean has it, and the one-statement functions stand at their statement. `lin` holds, for every task, exactly
+the operations of its call in program order, each entered during a step of that task (so between its call and its return),
+every answer a task returned is the answer of one of its operations in that order, and every call has returned one. -/
+theorem C18_registry_is_linearizable_at_lock_granularity (pr : Progs)
+    (hpr : progsOf Gen.REGISTRY_REGISTER_EVENTS Gen.REGISTRY_REMOVE_EVENTS Gen.REGISTRY_UNREGISTER_EVENTS
+      Gen.REGISTRY_WHEREIS_EVENTS = some pr)
+    (r0 : Reg) (h0 : RegOK r0) (calls : List Call) (sched : List Tid) :
+    let st := run (init pr r0 calls) sched
+    Quiescent st →
+      replay r0 (st.lin.map (·.2.1)) = (st.reg, st.lin.map (·.2.2)) ∧
+      (∀ t, doneOps st t = callOps calls t) ∧
+      (∀ t r, (st.tasks t).res = some r → ∃ op, (t, op, r) ∈ st.lin) ∧
+      (∀ t, t < calls.length → (st.tasks t).res ≠ none) := by
+  intro st hq
+  have hpr' := progs_of_sources hpr
+  subst hpr'
+  have hl : LockInv st := lockInv_run (lockInv_init h0 calls) sched
+  have hi : LinInv r0 st := linInv_run (lockInv_init h0 calls) (linInv_init _ r0 calls) sched
+  have hp : ProgOrder (callOps calls) st := progOrder_run (progOrder_init r0 calls) sched
+  have hr : Returned calls.length st := returned_run (lockInv_init h0 calls) (returned_init r0 calls) sched
+  refine ⟨?_, ?_, hi.answered, fun t ht => hr t ht (hq t)⟩
+  · have := hi.sim
+    rw [quiescent_holder hl hq] at this
+    simpa [absN] using this
+  · intro t
+    have := hp t
+    simpa [Task.opsLeft, hq t] using this
+
+/-- the race of the seeded change, on the source's order: the remove drops the process between the check and the claim; the
+history is the sequential order register, drop, sweep, with the answers Ok, Ok, Ok and an empty registry at the end -/
+example :
+    let st := run (init srcProgs { byPid := [1] } [.register 7 1, .remove 1]) [0, 0, 1, 1, 0, 1]
+    Quiescent st ∧ st.lin = [(0, .register 7 1, .ok), (1, .drop 1, .ok), (1, .sweep 1, .ok)] ∧ st.reg = {} ∧
+    replay { byPid := [1] } (st.lin.map (·.2.1)) = (st.reg, st.lin.map (·.2.2)) := by
+  refine ⟨?_, by decide, by decide, by decide⟩
+  intro t
+  match t with
+  | 0 => decide
+  | 1 => decide
+  | n + 2 => rfl
+
+/-- the two halves of a `remove` with a `register` between them are ONE atomic `remove` before or after that `register`
+(same tables, same answer): so a `register` racing a `remove` is linearizable to the atomic operations `Reg.register` /
+`Reg.remove` of Impl/Procs.lean themselves. (A register before the drop or after the sweep is that already.) -/
+theorem C18_remove_halves_around_a_register_are_one_remove (r : Reg) (n : Name) (p q : Pid) :
+    let mid := (AOp.apply (AOp.apply r (.drop q)).1 (.register n p))
+    let fin := ((AOp.apply mid.1 (.sweep q)).1, mid.2)
+    fin = (r.remove q).register n p ∨ fin = (((r.register n p).1.remove q), (r.register n p).2) := by
+  intro mid fin
+  by_cases hpq : p = q
+  · left
+    subst hpq
+    simp [fin, mid, AOp.apply, Reg.register, Reg.remove]
+  · right
+    by_cases hm : p ∈ r.byPid
+    · cases hf : nameFind n r.byName with
+      | none => simp [fin, mid, AOp.apply, Reg.register, Reg.remove, hm, hpq, hf, nameSweep, List.filter_append]
+      | some w => simp [fin, mid, AOp.apply, Reg.register, Reg.remove, hm, hpq, hf]
+    · simp [fin, mid, AOp.apply, Reg.register, Reg.remove, hm, hpq]
+
+example : (AOp.apply (AOp.apply (AOp.apply { byPid := [1], byName := [] } (.drop 1)).1 (.register 7 1)).1 (.sweep 1)).1
+    = (({ byPid := [1], byName := [] } : Reg).remove 1) := by decide
+
+/-- **one `register` racing one `remove` is one atomic `Reg.register` and one atomic `Reg.remove` in some order**: for every
+schedule of the two tasks at lock granularity, the final tables and the answer of the `register` are those of
+`remove; register` or those of `register; remove` on the sequential registry of Impl/Procs.lean. -/
+theorem C18_register_racing_remove_is_atomic (pr : Progs)
+    (hpr : progsOf Gen.REGISTRY_REGISTER_EVENTS Gen.REGISTRY_REMOVE_EVENTS Gen.REGISTRY_UNREGISTER_EVENTS
+      Gen.REGISTRY_WHEREIS_EVENTS = some pr)
+    (r0 : Reg) (h0 : RegOK r0) (n : Name) (p q : Pid) (sched : List Tid) :
+    let st := run (init pr r0 [.register n p, .remove q]) sched
+    Quiescent st → ∃ r, (st.tasks 0).res = some r ∧
+      ((st.reg, r) = (r0.remove q).register n p ∨ (st.reg, r) = ((r0.register n p).1.remove q, (r0.register n p).2)) := by
+  intro st hq
+  obtain ⟨hsim, hops, hans, hret⟩ := C18_registry_is_linearizable_at_lock_granularity pr hpr r0 h0 _ sched hq
+  obtain ⟨r, hr⟩ := Option.ne_none_iff_exists'.mp (hret 0 (by simp))
+  refine ⟨r, hr, ?_⟩
+  have h2 : ∀ t, 2 ≤ t → (st.lin.filter (fun e => e.1 = t)) = [] := by
+    intro t ht
+    have := hops t
+    have hnone : ([Call.register n p, Call.remove q] : List Call)[t]? = none := by
+      match t, ht with
+      | t + 2, _ => rfl
+    simpa [doneOps, callOps, hnone] using this
+  have e0 : (st.lin.filter (fun e => e.1 = 0)).map (·.2.1) = [.register n p] := hops 0
+  have e1 : (st.lin.filter (fun e => e.1 = 1)).map (·.2.1) = [.drop q, .sweep q] := hops 1
+  obtain ⟨op, hmem⟩ := hans 0 r hr
+  obtain ⟨ra, rb, rc, hl | hl | hl⟩ := interleavings_1_2 st.lin _ _ _ h2 e0 e1
+  · rw [hl] at hsim hmem
+    simp [replay, AOp.apply] at hsim hmem
+    right
+    rw [hmem.2, ← hsim.1, ← hsim.2.1]
+    rfl
+  · rw [hl] at hsim hmem
+    simp [replay] at hsim hmem
+    have := C18_remove_halves_around_a_register_are_one_remove r0 n p q
+    simp only at this
+    rw [hmem.2, ← hsim.1, ← hsim.2.2.1]
+    exact this
+  · rw [hl] at hsim hmem
+    simp [replay, AOp.apply] at hsim hmem
+    left
+    rw [hmem.2, ← hsim.1, ← hsim.2.2.2]
+    rfl
+
+example :
+    let st := run (init srcProgs { byPid := [1] } [.register 7 1, .remove 1]) [0, 0, 1, 1, 0, 1]
+    (st.tasks 0).res = some .ok ∧
+    (st.reg, Res.ok) = ((({ byPid := [1] } : Reg).register 7 1).1.remove 1, (({ byPid := [1] } : Reg).register 7 1).2) := by decide
+
+/-- **the negative witness**: with the liveness check in FRONT of the names lock (the seeded order, read by the same
+interpreter and run by the same step function) there is a schedule of one `register` racing one `remove` after which every
+task has returned, nobody holds the names, and a name is owned by a pid that is not in `by_pid` — with no remove left to
+sweep it. The check finds the process, the whole remove runs, then the name is claimed. -/
+theorem C18_check_before_lock_loses_the_invariant :
+    ∃ pr, progsOf ["temp:by_pid.read", "check-live", "hold:by_name.write", "claim-name"] Gen.REGISTRY_REMOVE_EVENTS
+      Gen.REGISTRY_UNREGISTER_EVENTS Gen.REGISTRY_WHEREIS_EVENTS = some pr ∧
+    ∃ sched : List Tid,
+      let st := run (init pr { byPid := [1] } [.register 7 1, .remove 1]) sched
+      RegOK { byPid := [1] } ∧ Quiescent st ∧ st.holder = none ∧
+      st.reg.whereis 7 = some 1 ∧ 1 ∉ st.reg.byPid ∧ ¬ Pend st.tasks 1 ∧ (st.tasks 0).res = some .ok := by
+  refine ⟨checkFirstProgs, C18_registry_programs_are_the_sources.2.2.2.1, [0, 1, 1, 0, 0], ?_⟩
+  have hq : Quiescent (run (init checkFirstProgs { byPid := [1] } [.register 7 1, .remove 1]) [0, 1, 1, 0, 0]) := by
+    intro t
+    match t with
+    | 0 => decide
+    | 1 => decide
+    | n + 2 => rfl
+  refine ⟨⟨?_, by decide⟩, hq, by decide, by decide, by decide, ?_, by decide⟩
+  · intro n p h; cases h
+  · rintro ⟨t, h1, _⟩
+    rw [hq t] at h1; cases h1
+
+/-- the same schedule on the source's order: the remove's sweep waits for the names, the register is refused
+(the process is gone when it looks) and nothing is left behind -/
+example :
+    let st := run (init srcProgs { byPid := [1] } [.register 7 1, .remove 1]) [1, 0, 1, 0, 0, 1]
+    st.reg = {} ∧ (st.tasks 0).res = some .noProc ∧ (st.tasks 0).code = [] ∧ (st.tasks 1).code = [] := by decide
 
 end Edp.Props.C18
